@@ -279,6 +279,11 @@ def make_replay(pid, v, tier, seed):
         found = search(pid, seed, tier)
         w = found.get(v['obligation'])
         if not w and found:
+            # a witness that belongs to a recorded KNOWN FINDING says nothing about this obligation: it is never attached
+            from . import findings as _f
+            known = _f.load()
+            found = {k: x for k, x in found.items() if not _f.match(known, pid, k)}
+        if not w and found:
             # no search rule carries this label: attach a failing input of the same property found on the real code
             k = sorted(found)[0]
             w = dict(found[k], observed='[witness found under search rule %s] %s' % (k, found[k]['observed']))
